@@ -255,6 +255,7 @@ func init() {
 						Docs:   map[string]*engine.DocCfg{"doc1": d, "doc2": d}, MaxPaths: 400000, TimeLimit: 4 * time.Minute})
 				}
 			}
+			jobs = append(jobs, preboomJobs("c05boom", tier, rng)...)
 			bi := 0
 			for _, p := range bigDocPaths(tier, rng) {
 				for _, d := range bigDocs() {
@@ -415,6 +416,24 @@ func init() {
 					Params: map[string]string{"path": tp.Text, "ast": tp.Ast, "holes": tp.Holes, "config": cfg, "checks": "C01", "infilter": inFilterFlag(tp), "history": hist},
 					Docs:   map[string]*engine.DocCfg{"doc": smallDoc(tp)}, MaxPaths: 200000})
 			}
+			// one Config object used by several calls; an earlier call passed it together with a second Config
+			// (only the first Config of a call counts, and a call never writes into the caller's Config)
+			k = 0
+			for _, target := range []string{"$.onlyb()", "$.a.onlyagg()", "$.f()", "$.a", "$.*.agg()", "$.unknown()"} {
+				for _, hp := range []string{"$.a", "$.onlyb()", "$.a.onlyagg()", "$.a[", "$.f().onlyb()", "$.unknown()"} {
+					for _, first := range []string{"shared+extra", "shared"} {
+						hist := first + "\t" + hp + "\n"
+						if first == "shared" {
+							hist = "shared+extra\t" + hp + "\nshared\t$.a\n"
+						}
+						jobs = append(jobs, &engine.Job{ID: fmt.Sprintf("c19pair-%d", k), Harness: "zzH_C19",
+							Params: map[string]string{"path": target, "holes": "", "config": "shared", "history": hist},
+							Docs:   map[string]*engine.DocCfg{"doc": tinyDoc(Path{Depth: 1})}, MaxPaths: 200000})
+						k++
+					}
+				}
+			}
+			jobs = append(jobs, preboomJobs("c19boom", tier, rng)...)
 			return jobs
 		},
 		Bounds: func(tier string) map[string]interface{} {
@@ -451,4 +470,25 @@ func badPaths() []string {
 		"$[?(@.f().unknown() == 1)]",    // unknown function in filter
 		"$[0,1:99999999999999999999:2]", // bad integer in union
 	}
+}
+
+// preboomJobs: the reference-evaluator comparison (C01 assertions) of a path evaluated right after an
+// evaluation that a panicking user function aborted half-way and the caller recovered from.
+func preboomJobs(prefix string, tier string, rng *rand.Rand) []*engine.Job {
+	sp := stepPaths(tier, rng)
+	ps := pathsWith(sp, func(p Path) bool { return nSteps(p) == 1 })
+	ps = append(ps, samplePaths(pathsWith(sp, func(p Path) bool { return nSteps(p) == 2 && p.Holes == "" }), 20, rng)...)
+	ps = append(ps, samplePaths(filterPaths(tier, rng), 20, rng)...)
+	ps = append(ps, samplePaths(funcPathsCore(tier), 15, rng)...)
+	var jobs []*engine.Job
+	for i, p := range dedupPaths(ps) {
+		cfg := ""
+		if p.Funcs {
+			cfg = "funcs"
+		}
+		jobs = append(jobs, &engine.Job{ID: fmt.Sprintf("%s-%d", prefix, i), Harness: "zzH_Eval",
+			Params: map[string]string{"path": p.Text, "ast": p.Ast, "holes": p.Holes, "config": cfg, "checks": "C01", "infilter": inFilterFlag(p), "preboom": "1"},
+			Docs:   map[string]*engine.DocCfg{"doc": smallDoc(p)}, Budget: 5000})
+	}
+	return jobs
 }
